@@ -1015,3 +1015,569 @@ Proof.
   specialize (Hall o1 Ho1). apply orb_true_iff in Hall. destruct Hall as [Hall|Hall]; [|exact Hall].
   apply negb_true_iff in Hall. unfold tget' in Et. apply find_some in Et. subst t'. cbn [lt_id] in Htr. lia.
 Qed.
+
+(* ---------- C10: the completion hooks never miss ---------- *)
+
+Lemma oget_in n l o : oget n l = Some o -> In o l /\ lo_name o = n.
+Proof. unfold oget. intros H. apply find_some in H. destruct H as [H1 H2]. split; [exact H1|lia]. Qed.
+
+Lemma tget_unique tid l t t1 : NoDup (map lt_id l) -> tget' tid l = Some t1 -> In t l -> lt_id t = tid -> t = t1.
+Proof.
+  unfold tget'. intros Hnd Hf Hin Hid. subst tid. revert Hnd Hf Hin. induction l as [|x r IH]; intros Hnd Hf Hin; [destruct Hin|]. cbn [find] in Hf. cbn [map] in Hnd. inversion Hnd as [|? ? Hx Hr]; subst.
+  destruct (lt_id x =? lt_id t) eqn:E.
+  - inversion Hf; subst. destruct Hin as [->|Hin]; [reflexivity|]. exfalso. apply Hx. apply in_map_iff. exists t. split; [lia|exact Hin].
+  - destruct Hin as [->|Hin]; [lia|]. apply IH; assumption.
+Qed.
+
+(* the hook never misses a completion: after a status change (other than the VIOLATION mark) the trade of that order is not left
+   "completable" - Live, not expecting further orders, every order complete - without having been completed *)
+Theorem order_status_never_misses s n st o t :
+  NoDup (map lt_id (ls_trades s)) -> st <> SViolation ->
+  oget n (ls_orders (order_status s n st)) = Some o -> In t (ls_trades (order_status s n st)) -> lt_id t = lo_trade o ->
+  trade_complete (order_status s n st) t = false.
+Proof.
+  intros Hnd Hst Ho Hin Hid. rewrite orders_order_status in Ho.
+  unfold order_status in Hin |- *. cbv zeta in Hin |- *.
+  set (s1 := with_ls s (oupd n (fun o0 => set_lo o0 st (ls_complete s)) (ls_orders s)) (ls_trades s) (ls_ctx s)) in *.
+  change (oget n (ls_orders s1) = Some o) in Ho. rewrite Ho in Hin |- *.
+  destruct (lo_complete o && negb (status_eqb st SViolation)) eqn:Ec.
+  - destruct (tget' (lo_trade o) (ls_trades s1)) as [t1|] eqn:Et.
+    + destruct (trade_complete s1 t1) eqn:Etc.
+      * (* completed: every trade with that id is now Complete *)
+        unfold complete_trade in *. rewrite Et in *. cbn [ls_trades with_ls] in Hin. unfold tupd' in Hin. apply in_map_iff in Hin. destruct Hin as [t0 [E0 Hin0]].
+        unfold trade_complete. destruct (lt_id t0 =? lo_trade o) eqn:Eid; [subst t; reflexivity|]. subst t. lia.
+      * assert (t = t1) by (eapply tget_unique; [exact Hnd|exact Et|exact Hin|exact Hid]). subst t1. exact Etc.
+    + exfalso. unfold tget' in Et. apply (find_none _ _ Et) in Hin. lia.
+  - (* the order is not complete (or only marked VIOLATION): the trade cannot be completable *)
+    apply andb_false_iff in Ec. destruct Ec as [Ec|Ec]; [|destruct st; cbn in Ec; try discriminate; congruence].
+    unfold trade_complete. apply andb_false_iff. right. apply not_true_is_false. intro Hall. rewrite forallb_forall in Hall.
+    destruct (oget_in _ _ _ Ho) as [Hino _]. specialize (Hall o Hino). rewrite Ec in Hall. rewrite orb_false_r in Hall. apply negb_true_iff in Hall. lia.
+Qed.
+
+(* ... and neither does the exit of the trade context manager (`with order.trade:` -> LIVE -> completion check) *)
+Theorem trade_exit_never_misses s tid t :
+  NoDup (map lt_id (ls_trades s)) -> In t (ls_trades (trade_set s tid TLive)) -> lt_id t = tid -> trade_complete (trade_set s tid TLive) t = false.
+Proof.
+  intros Hnd Hin Hid. unfold trade_set in Hin |- *. cbv zeta in Hin |- *.
+  set (f := fun t0 : ltrade => {| lt_id := lt_id t0; lt_status := TLive; lt_log := lt_log t0 ++ [TLive]; lt_pending_orders := lt_pending_orders t0; lt_strat := lt_strat t0; lt_sel := lt_sel t0 |}) in *.
+  set (s1 := with_ls s (ls_orders s) (tupd' tid f (ls_trades s)) (ls_ctx s)) in *.
+  assert (Hnd1 : NoDup (map lt_id (ls_trades s1))).
+  { unfold s1, with_ls, tupd'. cbn [ls_trades]. rewrite map_map. erewrite map_ext; [exact Hnd|]. intros a. destruct (lt_id a =? tid); reflexivity. }
+  destruct (tget' tid (ls_trades s1)) as [t1|] eqn:Et.
+  - destruct (trade_complete s1 t1) eqn:Etc.
+    + unfold complete_trade in *. rewrite Et in *. cbn [ls_trades with_ls] in Hin. unfold tupd' in Hin at 1. apply in_map_iff in Hin. destruct Hin as [t0 [E0 Hin0]].
+      unfold trade_complete. destruct (lt_id t0 =? tid) eqn:Eid; [subst t; reflexivity|]. subst t. lia.
+    + assert (t = t1) by (eapply tget_unique; [exact Hnd1|exact Et|exact Hin|exact Hid]). subst t1. exact Etc.
+  - exfalso. unfold tget' in Et. apply (find_none _ _ Et) in Hin. lia.
+Qed.
+
+(* ---------- C11: a whole snapshot ---------- *)
+
+Lemma oget_row_status_other s n r k : k <> n -> oget k (ls_orders (row_status s n r)) = oget k (ls_orders s).
+Proof.
+  intros Hk. unfold row_status. destruct (oget n (ls_orders s)) as [o|]; [|reflexivity].
+  destruct (lo_bet o); destruct (lo_status o); try reflexivity; destruct (rw_complete r); try reflexivity; rewrite oget_order_status; replace (k =? n) with false by lia; reflexivity.
+Qed.
+Lemma oget_leave_live_other s n k : k <> n -> oget k (ls_orders (leave_live s n)) = oget k (ls_orders s).
+Proof.
+  intros Hk. unfold leave_live. destruct (oget n (ls_orders s)) as [o|]; [|reflexivity]. destruct (lo_complete o); [|reflexivity].
+  rewrite oget_set_fields by reflexivity. replace (k =? n) with false by lia. reflexivity.
+Qed.
+Lemma oget_apply_row_other s n r k : k <> n -> oget k (ls_orders (apply_row s n r)) = oget k (ls_orders s).
+Proof.
+  intros Hk. unfold apply_row. rewrite oget_leave_live_other, oget_row_status_other by exact Hk.
+  rewrite oget_set_fields by reflexivity. replace (k =? n) with false by lia. reflexivity.
+Qed.
+Lemma complete_order_status s m st : ls_complete (order_status s m st) = ls_complete s.
+Proof.
+  unfold order_status. cbv zeta.
+  match goal with |- context [match ?x with Some _ => _ | None => _ end] => destruct x end; [|reflexivity].
+  match goal with |- context [if ?c then _ else _] => destruct c end; [|reflexivity].
+  match goal with |- context [match ?x with Some _ => _ | None => _ end] => destruct x end; [|reflexivity].
+  match goal with |- context [if ?c then _ else _] => destruct c end; [|reflexivity].
+  unfold complete_trade. match goal with |- context [match ?x with Some _ => _ | None => _ end] => destruct x end; reflexivity.
+Qed.
+Lemma complete_apply_row s n r : ls_complete (apply_row s n r) = ls_complete s.
+Proof.
+  unfold apply_row, leave_live.
+  assert (H1 : forall x, ls_complete (row_status x n r) = ls_complete x).
+  { intros x. unfold row_status. destruct (oget n (ls_orders x)) as [o|]; [|reflexivity].
+    destruct (lo_bet o); destruct (lo_status o); try reflexivity; destruct (rw_complete r); try reflexivity; apply complete_order_status. }
+  match goal with |- context [oget n (ls_orders ?X)] => destruct (oget n (ls_orders X)) as [o|] end.
+  - destruct (lo_complete o); [cbn [set_fields with_ls ls_complete]|]; rewrite H1; reflexivity.
+  - rewrite H1. reflexivity.
+Qed.
+
+(* an order is linked to a row when the row is filed under its reference and carries its bet id *)
+Definition ready (s : lstate) (x : srow) : Prop :=
+  exists o, oget (sr_name x) (ls_orders s) = Some o /\ lo_bet o = Some (rw_bet (sr_row x)) /\
+            lo_complete o = status_in (lo_status o) (ls_complete s) /\ (lo_status o = SExecutable \/ lo_status o = SPending).
+
+Lemma ready_row_is_apply s y : ready s y -> process_row s y = apply_row s (sr_name y) (sr_row y).
+Proof. intros (o & Ho & Hb & _). unfold process_row. rewrite Ho, Hb, Z.eqb_refl. reflexivity. Qed.
+Lemma ready_after_row s y r : ~ In (sr_name y) (map sr_name r) -> (forall z, In z r -> ready s z) ->
+  forall z, In z r -> ready (apply_row s (sr_name y) (sr_row y)) z.
+Proof.
+  intros Hny Hready z Hz. destruct (Hready z Hz) as (o & Ho & Hb & Hco & Hst).
+  assert (Hne : sr_name z <> sr_name y) by (intro E; apply Hny; rewrite <- E; apply in_map; exact Hz).
+  exists o. rewrite oget_apply_row_other by exact Hne. rewrite complete_apply_row. auto.
+Qed.
+Lemma snapshot_frame l : NoDup (map sr_name l) -> forall s0 k, ~ In k (map sr_name l) -> (forall z, In z l -> ready s0 z) ->
+  oget k (ls_orders (fold_left process_row l s0)) = oget k (ls_orders s0).
+Proof.
+  induction l as [|z l IH]; intros Hnd s0 k Hn Hrd; cbn [fold_left]; [reflexivity|]. cbn [map In] in Hn, Hnd. inversion Hnd as [|? ? Hz Hndl]; subst.
+  rewrite (ready_row_is_apply s0 z) by (apply Hrd; left; reflexivity).
+  rewrite IH; [apply oget_apply_row_other; intro E; apply Hn; left; symmetry; exact E|exact Hndl|tauto|].
+  apply ready_after_row; [exact Hz|intros w Hw; apply Hrd; right; exact Hw].
+Qed.
+
+(* the latest snapshot, any number of orders: every order that is linked to its row and has nothing outstanding holds that row afterwards *)
+Theorem snapshot_converges rows : NoDup (map sr_name rows) -> forall s,
+  status_in SExecComplete (ls_complete s) = true -> status_in SExecutable (ls_complete s) = false ->
+  (forall x, In x rows -> ready s x) ->
+  forall x, In x rows -> exists o', oget (sr_name x) (ls_orders (process_snapshot s rows)) = Some o' /\ tracks o' (sr_row x) /\
+                                    lo_matched o' = rw_matched (sr_row x) /\ lo_remaining o' = rw_remaining (sr_row x).
+Proof.
+  unfold process_snapshot. induction rows as [|y r IH]; intros Hnd s Hc1 Hc2 Hready x Hx; [destruct Hx|].
+  cbn [map] in Hnd. inversion Hnd as [|? ? Hny Hndr]; subst. cbn [fold_left].
+  rewrite (ready_row_is_apply s y) by (apply Hready; left; reflexivity).
+  assert (Hcs : ls_complete (apply_row s (sr_name y) (sr_row y)) = ls_complete s) by apply complete_apply_row.
+  assert (Hready' : forall z, In z r -> ready (apply_row s (sr_name y) (sr_row y)) z)
+    by (apply ready_after_row; [exact Hny|intros w Hw; apply Hready; right; exact Hw]).
+  destruct Hx as [->|Hx].
+  - destruct (Hready x (or_introl eq_refl)) as (o & Ho & Hb & Hco & Hst).
+    destruct (row_converges s (sr_name x) (sr_row x) o Hc1 Hc2 Ho Hco) as (o' & Ho' & Htr & _ & Hm & Hr).
+    { destruct Hst as [Hst|Hst]; [left; exact Hst|right; split; [exact Hst|left; rewrite Hb; discriminate]]. }
+    exists o'. split; [|auto]. rewrite snapshot_frame; [exact Ho'|exact Hndr|exact Hny|exact Hready'].
+  - apply IH; [exact Hndr|rewrite Hcs; exact Hc1|rewrite Hcs; exact Hc2|exact Hready'|exact Hx].
+Qed.
+
+(* ---------- C10: invariant over histories - no completable trade is left uncompleted ---------- *)
+
+(* every order of trade tid is complete *)
+Definition allc (os : list lorder) (tid : Z) : bool := forallb (fun o => negb (lo_trade o =? tid) || lo_complete o) os.
+Lemma trade_complete_allc s t : trade_complete s t = tstatus_eqb (lt_status t) TLive && negb (lt_pending_orders t) && allc (ls_orders s) (lt_id t).
+Proof. reflexivity. Qed.
+
+(* nothing completable is left uncompleted *)
+Definition ncl (s : lstate) : Prop := forall t, In t (ls_trades s) -> trade_complete s t = false.
+Definition uniq (s : lstate) : Prop := NoDup (map lt_id (ls_trades s)) /\ NoDup (map lo_name (ls_orders s)).
+
+(* the trade of the order named n *)
+Definition trade_of (s : lstate) (n : Z) : option Z := option_map lo_trade (oget n (ls_orders s)).
+
+Lemma allc_oupd_other os n f tid : (forall o, lo_trade (f o) = lo_trade o) ->
+  (forall o, In o os -> lo_name o = n -> lo_trade o <> tid) -> allc (oupd n f os) tid = allc os tid.
+Proof.
+  intros Hf Hn. unfold allc, oupd. induction os as [|o r IH]; [reflexivity|]. cbn [map forallb].
+  rewrite IH by (intros x Hx; apply Hn; right; exact Hx). f_equal.
+  destruct (lo_name o =? n) eqn:E; [|reflexivity]. rewrite Hf.
+  assert (lo_trade o <> tid) by (apply Hn; [left; reflexivity|lia]). replace (lo_trade o =? tid) with false by lia. reflexivity.
+Qed.
+
+Lemma uniq_name_trade os n o x : NoDup (map lo_name os) -> oget n os = Some o -> In x os -> lo_name x = n -> x = o.
+Proof.
+  unfold oget. intros Hnd Hf Hin Hx. subst n. revert Hnd Hf Hin. induction os as [|y r IH]; intros Hnd Hf Hin; [destruct Hin|]. cbn [find] in Hf. cbn [map] in Hnd. inversion Hnd as [|? ? Hy Hr]; subst.
+  destruct (lo_name y =? lo_name x) eqn:E.
+  - inversion Hf; subst. destruct Hin as [->|Hin]; [reflexivity|]. exfalso. apply Hy. apply in_map_iff. exists x. split; [lia|exact Hin].
+  - destruct Hin as [->|Hin]; [lia|]. apply IH; assumption.
+Qed.
+
+Definition set_complete (t : ltrade) : ltrade :=
+  {| lt_id := lt_id t; lt_status := TComplete; lt_log := lt_log t ++ [TComplete]; lt_pending_orders := lt_pending_orders t; lt_strat := lt_strat t; lt_sel := lt_sel t |}.
+
+Lemma trades_complete_trade s tid : ls_trades (complete_trade s tid) = ls_trades s \/ ls_trades (complete_trade s tid) = tupd' tid set_complete (ls_trades s).
+Proof. unfold complete_trade. destruct (tget' tid (ls_trades s)); [right; reflexivity|left; reflexivity]. Qed.
+
+Lemma trades_order_status s n st :
+  ls_trades (order_status s n st) = ls_trades s \/
+  exists o, oget n (oupd n (fun o0 => set_lo o0 st (ls_complete s)) (ls_orders s)) = Some o /\ ls_trades (order_status s n st) = tupd' (lo_trade o) set_complete (ls_trades s).
+Proof.
+  unfold order_status. cbv zeta.
+  set (s1 := with_ls s (oupd n (fun o0 => set_lo o0 st (ls_complete s)) (ls_orders s)) (ls_trades s) (ls_ctx s)).
+  change (oupd n (fun o0 => set_lo o0 st (ls_complete s)) (ls_orders s)) with (ls_orders s1).
+  destruct (oget n (ls_orders s1)) as [o|] eqn:Eo; [|left; reflexivity].
+  destruct (lo_complete o && negb (status_eqb st SViolation)); [|left; reflexivity].
+  destruct (tget' (lo_trade o) (ls_trades s1)) as [t|]; [|left; reflexivity].
+  destruct (trade_complete s1 t); [|left; reflexivity].
+  destruct (trades_complete_trade s1 (lo_trade o)) as [H|H]; [left; exact H|right; exists o; split; [reflexivity|exact H]].
+Qed.
+
+Lemma in_tupd_other tid f l t : In t (tupd' tid f l) -> (forall x, lt_id (f x) = lt_id x) -> lt_id t <> tid -> In t l.
+Proof.
+  unfold tupd'. intros Hin Hf Hne. apply in_map_iff in Hin. destruct Hin as [x [E Hx]]. destruct (lt_id x =? tid) eqn:Ex; [|subst; exact Hx].
+  subst t. rewrite Hf in Hne. lia.
+Qed.
+
+Lemma oget_oupd_self n f l o : (forall x, lo_name (f x) = lo_name x) -> oget n (oupd n f l) = Some o -> exists o0, oget n l = Some o0 /\ o = f o0.
+Proof. intros Hf H. rewrite oget_oupd in H by exact Hf. rewrite Z.eqb_refl in H. destruct (oget n l) as [o0|]; [|discriminate]. inversion H. exists o0. auto. Qed.
+
+Theorem ncl_order_status s n st : uniq s -> st <> SViolation -> ncl s -> ncl (order_status s n st).
+Proof.
+  intros [Hut Huo] Hst Hn t Hin.
+  destruct (oget n (ls_orders (order_status s n st))) as [o|] eqn:Eo.
+  - destruct (Z.eq_dec (lt_id t) (lo_trade o)) as [E|E]; [eapply order_status_never_misses; eassumption|].
+    (* another trade: its record and its orders are as they were *)
+    pose proof Eo as Eo'. rewrite orders_order_status in Eo'. destruct (oget_oupd_self n (fun o1 => set_lo o1 st (ls_complete s)) (ls_orders s) o ltac:(reflexivity) Eo') as (o0 & Ho0 & ->).
+    assert (Hint : In t (ls_trades s)).
+    { destruct (trades_order_status s n st) as [H|(o1 & Ho1 & H)]; [rewrite H in Hin; exact Hin|].
+      rewrite Ho1 in Eo'. inversion Eo'; subst o1. rewrite H in Hin. eapply in_tupd_other; [exact Hin|reflexivity|exact E]. }
+    specialize (Hn t Hint). rewrite trade_complete_allc in Hn |- *. rewrite orders_order_status.
+    rewrite allc_oupd_other; [exact Hn|reflexivity|].
+    intros x Hx Hxn. assert (x = o0) by (eapply uniq_name_trade; eassumption). subst x. exact (fun H => E (eq_sym H)).
+  - (* no order of that name: nothing changed *)
+    assert (Hnone : oget n (ls_orders s) = None).
+    { rewrite orders_order_status, oget_oupd in Eo by reflexivity. rewrite Z.eqb_refl in Eo. destruct (oget n (ls_orders s)); [discriminate|reflexivity]. }
+    assert (Hos : ls_orders (order_status s n st) = ls_orders s).
+    { rewrite orders_order_status. unfold oupd. erewrite map_ext_in; [apply map_id|]. intros a Ha. destruct (lo_name a =? n) eqn:Ea; [|reflexivity].
+      exfalso. unfold oget in Hnone. apply (find_none _ _ Hnone) in Ha. lia. }
+    assert (Hts : ls_trades (order_status s n st) = ls_trades s).
+    { destruct (trades_order_status s n st) as [H|(o1 & Ho1 & _)]; [exact H|]. rewrite oget_oupd in Ho1 by reflexivity. rewrite Z.eqb_refl, Hnone in Ho1. discriminate. }
+    rewrite Hts in Hin. specialize (Hn t Hin). rewrite trade_complete_allc in Hn |- *. rewrite Hos. exact Hn.
+Qed.
+
+(* ---------- the invariant ---------- *)
+Definition proj3 (o : lorder) : Z * Z * bool := (lo_name o, lo_trade o, lo_complete o).
+Definition INV (s : lstate) : Prop :=
+  ncl s /\ NoDup (map lt_id (ls_trades s)) /\ NoDup (map lo_name (ls_orders s)) /\
+  (forall o, In o (ls_orders s) -> lo_name o < ls_next_name s) /\ (forall t, In t (ls_trades s) -> lt_id t < ls_next_trade s).
+
+Definition same_tc (s s' : lstate) : Prop :=
+  ls_trades s' = ls_trades s /\ map proj3 (ls_orders s') = map proj3 (ls_orders s) /\ ls_next_name s' = ls_next_name s /\ ls_next_trade s' = ls_next_trade s.
+
+Lemma allc_proj os tid : allc os tid = forallb (fun p => negb (snd (fst p) =? tid) || snd p) (map proj3 os).
+Proof. unfold allc. induction os as [|o r IH]; [reflexivity|]. cbn [map forallb]. rewrite IH. reflexivity. Qed.
+
+Lemma names_proj os : map lo_name os = map (fun p => fst (fst p)) (map proj3 os).
+Proof. rewrite map_map. reflexivity. Qed.
+
+Lemma INV_same_tc s s' : same_tc s s' -> INV s -> INV s'.
+Proof.
+  intros (Ht & Ho & Hn & Hnt) (Hncl & Hut & Huo & Hfn & Hft). split; [|split; [|split; [|split]]].
+  - intros t Hin. rewrite Ht in Hin. specialize (Hncl t Hin). rewrite trade_complete_allc in *. rewrite allc_proj in *. rewrite Ho. exact Hncl.
+  - rewrite Ht. exact Hut.
+  - rewrite names_proj, Ho, <- names_proj. exact Huo.
+  - intros o Hin. rewrite Hn.
+    assert (In (lo_name o) (map lo_name (ls_orders s))) by (rewrite names_proj, <- Ho, <- names_proj; apply in_map; exact Hin).
+    apply in_map_iff in H. destruct H as [o0 [E H0]]. rewrite <- E. apply Hfn. exact H0.
+  - intros t Hin. rewrite Hnt. rewrite Ht in Hin. apply Hft. exact Hin.
+Qed.
+
+Lemma same_tc_set_fields s n f : (forall o, proj3 (f o) = proj3 o) -> same_tc s (set_fields s n f).
+Proof.
+  intros Hf. split; [reflexivity|]. split; [|split; reflexivity]. rewrite orders_set_fields. unfold oupd. rewrite map_map. apply map_ext.
+  intros a. destruct (lo_name a =? n); [apply Hf|reflexivity].
+Qed.
+Lemma same_tc_refl s : same_tc s s. Proof. repeat split; reflexivity. Qed.
+Lemma same_tc_trans a b c : same_tc a b -> same_tc b c -> same_tc a c.
+Proof. intros (A1 & A2 & A3 & A4) (B1 & B2 & B3 & B4). repeat split; congruence. Qed.
+Lemma same_tc_setbet s n b m : same_tc s (setbet s n b m). Proof. apply same_tc_set_fields. reflexivity. Qed.
+Lemma same_tc_force_zero s n b : same_tc s (force_zero s n b).
+Proof. unfold force_zero. destruct (oget n (ls_orders s)) as [o|]; [|apply same_tc_refl]. destruct (lo_view o); [apply same_tc_refl|]. destruct b; [apply same_tc_refl|apply same_tc_set_fields; reflexivity]. Qed.
+Lemma same_tc_leave_live s n : same_tc s (leave_live s n).
+Proof. unfold leave_live. destruct (oget n (ls_orders s)) as [o|]; [|apply same_tc_refl]. destruct (lo_complete o); [apply same_tc_set_fields; reflexivity|apply same_tc_refl]. Qed.
+
+(* order_status keeps the rest of the invariant *)
+Lemma INV_order_status s n st : st <> SViolation -> INV s -> INV (order_status s n st).
+Proof.
+  intros Hst (Hncl & Hut & Huo & Hfn & Hft). split; [apply ncl_order_status; [split; assumption|exact Hst|exact Hncl]|].
+  assert (Hnames : map lo_name (ls_orders (order_status s n st)) = map lo_name (ls_orders s)).
+  { rewrite orders_order_status. unfold oupd. rewrite map_map. apply map_ext. intros a. destruct (lo_name a =? n); reflexivity. }
+  assert (Hids : map lt_id (ls_trades (order_status s n st)) = map lt_id (ls_trades s)).
+  { destruct (trades_order_status s n st) as [H|(o & _ & H)]; rewrite H; [reflexivity|]. unfold tupd'. rewrite map_map. apply map_ext. intros a. destruct (lt_id a =? lo_trade o); reflexivity. }
+  assert (Hnn : ls_next_name (order_status s n st) = ls_next_name s /\ ls_next_trade (order_status s n st) = ls_next_trade s).
+  { unfold order_status. cbv zeta.
+    repeat match goal with
+           | |- context [match ?x with Some _ => _ | None => _ end] => destruct x
+           | |- context [if ?c then _ else _] => destruct c
+           end; unfold complete_trade; repeat match goal with |- context [match ?x with Some _ => _ | None => _ end] => destruct x end; split; reflexivity. }
+  destruct Hnn as [Hn1 Hn2].
+  split; [rewrite Hids; exact Hut|]. split; [rewrite Hnames; exact Huo|]. split.
+  - intros o Hin. rewrite Hn1. assert (In (lo_name o) (map lo_name (ls_orders s))) by (rewrite <- Hnames; apply in_map; exact Hin).
+    apply in_map_iff in H. destruct H as [o0 [E H0]]. rewrite <- E. apply Hfn. exact H0.
+  - intros t Hin. rewrite Hn2. assert (In (lt_id t) (map lt_id (ls_trades s))) by (rewrite <- Hids; apply in_map; exact Hin).
+    apply in_map_iff in H. destruct H as [t0 [E H0]]. rewrite <- E. apply Hft. exact H0.
+Qed.
+
+Definition set_tstatus (st : tstatus) (t : ltrade) : ltrade :=
+  {| lt_id := lt_id t; lt_status := st; lt_log := lt_log t ++ [st]; lt_pending_orders := lt_pending_orders t; lt_strat := lt_strat t; lt_sel := lt_sel t |}.
+
+Lemma trades_trade_set s tid st :
+  ls_trades (trade_set s tid st) = tupd' tid (set_tstatus st) (ls_trades s) \/
+  ls_trades (trade_set s tid st) = tupd' tid set_complete (tupd' tid (set_tstatus st) (ls_trades s)).
+Proof.
+  unfold trade_set. cbv zeta. set (s1 := with_ls s (ls_orders s) _ (ls_ctx s)).
+  destruct (tget' tid (ls_trades s1)) as [t|]; [|left; reflexivity]. destruct (trade_complete s1 t); [|left; reflexivity].
+  destruct (trades_complete_trade s1 tid) as [H|H]; [left; exact H|right; exact H].
+Qed.
+Lemma nn_trade_set s tid st : ls_next_name (trade_set s tid st) = ls_next_name s /\ ls_next_trade (trade_set s tid st) = ls_next_trade s.
+Proof.
+  unfold trade_set. cbv zeta. set (s1 := with_ls s (ls_orders s) _ (ls_ctx s)).
+  destruct (tget' tid (ls_trades s1)) as [t|]; [|split; reflexivity]. destruct (trade_complete s1 t); [|split; reflexivity].
+  unfold complete_trade. destruct (tget' tid (ls_trades s1)); split; reflexivity.
+Qed.
+Lemma ids_tupd tid f l : (forall x, lt_id (f x) = lt_id x) -> map lt_id (tupd' tid f l) = map lt_id l.
+Proof. intros Hf. unfold tupd'. rewrite map_map. apply map_ext. intros a. destruct (lt_id a =? tid); [apply Hf|reflexivity]. Qed.
+
+Lemma INV_trade_set s tid st : st = TPending \/ st = TLive -> INV s -> INV (trade_set s tid st).
+Proof.
+  intros Hst (Hncl & Hut & Huo & Hfn & Hft).
+  assert (Hids : map lt_id (ls_trades (trade_set s tid st)) = map lt_id (ls_trades s)).
+  { destruct (trades_trade_set s tid st) as [H|H]; rewrite H; rewrite ?ids_tupd by reflexivity; reflexivity. }
+  destruct (nn_trade_set s tid st) as [Hn1 Hn2].
+  split; [|split; [rewrite Hids; exact Hut|split; [rewrite orders_trade_set; exact Huo|split]]].
+  - intros t Hin. destruct (Z.eq_dec (lt_id t) tid) as [E|E].
+    + destruct Hst as [->| ->].
+      * (* Pending: not completable whatever its orders *)
+        assert (lt_status t = TPending).
+        { unfold trade_set in Hin. cbv zeta in Hin. set (s1 := with_ls s (ls_orders s) (tupd' tid (fun t0 => {| lt_id := lt_id t0; lt_status := TPending; lt_log := lt_log t0 ++ [TPending]; lt_pending_orders := lt_pending_orders t0; lt_strat := lt_strat t0; lt_sel := lt_sel t0 |}) (ls_trades s)) (ls_ctx s)) in *.
+          assert (Hs1 : forall x, In x (ls_trades s1) -> lt_id x = tid -> lt_status x = TPending).
+          { intros x Hx Hid. unfold s1, with_ls, tupd' in Hx. cbn [ls_trades] in Hx. apply in_map_iff in Hx. destruct Hx as [x0 [Ex Hx0]]. destruct (lt_id x0 =? tid) eqn:E0; [subst x; reflexivity|subst x; lia]. }
+          destruct (tget' tid (ls_trades s1)) as [t1|] eqn:Et; [|apply Hs1; assumption].
+          assert (Htc : trade_complete s1 t1 = false).
+          { unfold trade_complete. unfold tget' in Et. apply find_some in Et. destruct Et as [Et1 Et2]. rewrite (Hs1 t1 Et1 ltac:(lia)). reflexivity. }
+          rewrite Htc in Hin. apply Hs1; assumption. }
+        unfold trade_complete. rewrite H. reflexivity.
+      * apply trade_exit_never_misses; assumption.
+    + assert (Hint : In t (ls_trades s)).
+      { destruct (trades_trade_set s tid st) as [H|H]; rewrite H in Hin.
+        - eapply in_tupd_other; [exact Hin|reflexivity|exact E].
+        - eapply in_tupd_other; [eapply in_tupd_other; [exact Hin|reflexivity|exact E]|reflexivity|exact E]. }
+      specialize (Hncl t Hint). rewrite trade_complete_allc in *. rewrite orders_trade_set. exact Hncl.
+  - intros o Hin. rewrite Hn1. rewrite orders_trade_set in Hin. apply Hfn. exact Hin.
+  - intros t Hin. rewrite Hn2. assert (In (lt_id t) (map lt_id (ls_trades s))) by (rewrite <- Hids; apply in_map; exact Hin).
+    apply in_map_iff in H. destruct H as [t0 [E H0]]. rewrite <- E. apply Hft. exact H0.
+Qed.
+
+Lemma INV_with_trade s n body : (forall x, INV x -> INV (body x)) -> INV s -> INV (with_trade s n body).
+Proof.
+  intros Hb Hs. unfold with_trade. destruct (oget n (ls_orders s)) as [o|]; [|exact Hs].
+  apply INV_trade_set; [right; reflexivity|]. apply Hb. apply INV_trade_set; [left; reflexivity|exact Hs].
+Qed.
+
+Lemma INV_place_body n r x : INV x -> INV (place_body n r x).
+Proof.
+  intros H. destruct r as [os b m|b|b]; cbn [place_body]; cbv zeta.
+  - destruct (os =? 1); [eapply INV_same_tc; [apply same_tc_setbet|exact H]|].
+    destruct (os =? 2); apply INV_order_status; try discriminate; (eapply INV_same_tc; [apply same_tc_setbet|exact H]).
+  - apply INV_order_status; [discriminate|]. eapply INV_same_tc; [apply same_tc_force_zero|]. eapply INV_same_tc; [apply same_tc_setbet|exact H].
+  - eapply INV_same_tc; [apply same_tc_setbet|exact H].
+Qed.
+Lemma cancel_status_not_violation rem r : cancel_status rem r <> SViolation.
+Proof. destruct r as [sc|[|]|]; cbn; try discriminate. destruct ((sc =? rem) || (rem =? 0)); discriminate. Qed.
+Lemma INV_cancel_body n r x : INV x -> INV (cancel_body n r x).
+Proof. intros H. unfold cancel_body. destruct (oget n (ls_orders x)); [apply INV_order_status; [apply cancel_status_not_violation|exact H]|exact H]. Qed.
+
+(* appending an order that is not complete, with a fresh name, to whatever trade *)
+Lemma INV_append s o : INV s -> lo_complete o = false -> lo_name o = ls_next_name s ->
+  INV {| ls_orders := ls_orders s ++ [o]; ls_trades := ls_trades s; ls_ctx := ls_ctx s; ls_bet_lookup := ls_bet_lookup s ++ [(lo_bet o, lo_name o)];
+         ls_tx := ls_tx s; ls_tx_failed := ls_tx_failed s; ls_next_name := ls_next_name s + 1; ls_next_trade := ls_next_trade s; ls_complete := ls_complete s |}.
+Proof.
+  intros (Hncl & Hut & Huo & Hfn & Hft) Hc Hname. split; [|split; [exact Hut|split; [|split]]]; cbn [ls_orders ls_trades ls_next_name ls_next_trade].
+  - intros t Hin. specialize (Hncl t Hin). rewrite trade_complete_allc in *. cbn [ls_orders]. unfold allc in *. rewrite forallb_app. cbn [forallb]. rewrite Hc.
+    apply andb_false_iff in Hncl. destruct Hncl as [Hncl|Hncl]; [rewrite Hncl; reflexivity|rewrite Hncl; rewrite andb_false_r; cbn; destruct (tstatus_eqb (lt_status t) TLive && negb (lt_pending_orders t)); reflexivity].
+  - rewrite map_app. cbn [map]. apply NoDup_app_snoc; [exact Huo|]. intro Hin. apply in_map_iff in Hin. destruct Hin as [o0 [E H0]]. specialize (Hfn o0 H0). lia.
+  - intros x Hx. apply in_app_or in Hx. destruct Hx as [Hx|[<-|[]]]; [specialize (Hfn x Hx); lia|lia].
+  - exact Hft.
+Qed.
+Lemma INV_add_replacement s o0 bet price size : INV s -> INV (add_replacement s o0 bet price size).
+Proof.
+  intros H. unfold add_replacement. cbv zeta. apply INV_order_status; [discriminate|].
+  match goal with |- INV {| ls_orders := _ ++ [?r]; ls_trades := _; ls_ctx := _; ls_bet_lookup := _; ls_tx := _; ls_tx_failed := _; ls_next_name := _; ls_next_trade := _; ls_complete := _ |} =>
+    exact (INV_append s r H eq_refl eq_refl) end.
+Qed.
+Lemma INV_replace_body n o0 r x : INV x -> INV (replace_body n o0 r x).
+Proof.
+  intros H. destruct r as [c p]. cbn [replace_body]. cbv zeta.
+  assert (H1 : INV (match c with CSuccess _ => order_status x n SExecComplete | CFailure _ => order_status x n SExecutable | CTimeout => order_status x n SExecutable end))
+    by (destruct c; apply INV_order_status; try discriminate; exact H).
+  destruct p as [[[bet price] size]|]; [|exact H1]. apply INV_add_replacement. exact H1.
+Qed.
+Lemma INV_fold {A} (f : lstate -> A -> lstate) l : (forall s x, INV s -> INV (f s x)) -> forall s, INV s -> INV (fold_left f l s).
+Proof. intros Hf. induction l as [|x r IH]; intros s Hs; cbn [fold_left]; [exact Hs|]. apply IH. apply Hf. exact Hs. Qed.
+Lemma INV_add_tx s a b : INV s -> INV (add_tx s a b). Proof. exact (fun H => H). Qed.
+
+Lemma INV_row_status s n r : INV s -> INV (row_status s n r).
+Proof.
+  intros H. unfold row_status. destruct (oget n (ls_orders s)) as [o|]; [|exact H].
+  destruct (lo_bet o); destruct (lo_status o); try exact H; destruct (rw_complete r); try exact H; apply INV_order_status; try discriminate; exact H.
+Qed.
+Lemma INV_apply_row s n r : INV s -> INV (apply_row s n r).
+Proof.
+  intros H. unfold apply_row. eapply INV_same_tc; [apply same_tc_leave_live|]. apply INV_row_status. eapply INV_same_tc; [apply same_tc_set_fields; reflexivity|exact H].
+Qed.
+
+(* a new incomplete order (fresh name) in trade tid, the trade record appended if it is new *)
+Lemma INV_new_order s o tid newt cx bl nt :
+  INV s -> lo_complete o = false -> lo_trade o = tid -> oget (lo_name o) (ls_orders s) = None -> lo_name o < ls_next_name s ->
+  (match newt with Some t => lt_id t = tid /\ tget' tid (ls_trades s) = None | None => True end) -> tid < nt -> ls_next_trade s <= nt ->
+  INV {| ls_orders := ls_orders s ++ [o]; ls_trades := ls_trades s ++ match newt with Some t => [t] | None => [] end; ls_ctx := cx; ls_bet_lookup := bl;
+         ls_tx := ls_tx s; ls_tx_failed := ls_tx_failed s; ls_next_name := ls_next_name s; ls_next_trade := nt; ls_complete := ls_complete s |}.
+Proof.
+  intros (Hncl & Hut & Huo & Hfn & Hft) Hc Htr Hfresh Hlt Hnew Hnt1 Hnt2.
+  split; [|split; [|split; [|split]]]; cbn [ls_orders ls_trades ls_next_name ls_next_trade].
+  - intros t Hin. rewrite trade_complete_allc. cbn [ls_orders]. unfold allc. rewrite forallb_app. cbn [forallb]. rewrite Hc, Htr.
+    destruct (Z.eq_dec (lt_id t) tid) as [E|E].
+    + replace (tid =? lt_id t) with true by lia. cbn. rewrite !andb_false_r. reflexivity.
+    + replace (tid =? lt_id t) with false by lia. cbn. rewrite andb_true_r.
+      apply in_app_or in Hin. destruct Hin as [Hin|Hin]; [apply (Hncl t Hin)|]. destruct newt as [t0|]; [|destruct Hin]. destruct Hin as [<-|[]]. destruct Hnew as [Hid _]. congruence.
+  - rewrite map_app. destruct newt as [t0|]; cbn [map]; [|rewrite app_nil_r; exact Hut]. destruct Hnew as [Hid Hnone]. apply NoDup_app_snoc; [exact Hut|].
+    intro Hin. apply in_map_iff in Hin. destruct Hin as [x [E Hx]]. unfold tget' in Hnone. apply (find_none _ _ Hnone) in Hx. lia.
+  - rewrite map_app. cbn [map]. apply NoDup_app_snoc; [exact Huo|]. intro Hin. apply in_map_iff in Hin. destruct Hin as [x [E Hx]].
+    unfold oget in Hfresh. apply (find_none _ _ Hfresh) in Hx. lia.
+  - intros x Hx. apply in_app_or in Hx. destruct Hx as [Hx|[<-|[]]]; [apply Hfn; exact Hx|exact Hlt].
+  - intros t Hin. apply in_app_or in Hin. destruct Hin as [Hin|Hin]; [specialize (Hft t Hin); lia|]. destruct newt as [t0|]; [|destruct Hin]. destruct Hin as [<-|[]]. destruct Hnew as [Hid _]. lia.
+Qed.
+
+Lemma INV_req_place s n t st sl sz p a : INV s -> oget n (ls_orders s) = None -> n < ls_next_name s -> INV (req_place s n t st sl sz p a).
+Proof.
+  intros H Hf Hlt. unfold req_place. cbv zeta.
+  set (o := {| lo_name := n; lo_trade := t; lo_strat := st; lo_sel := sl; lo_size := sz; lo_price := p; lo_status := SPending; lo_log := [SPending]; lo_complete := false;
+               lo_bet := None; lo_async := a; lo_view := None; lo_place_resp := None; lo_in_live := true; lo_in_blotter := true; lo_newprice := None |}).
+  destruct (tget' t (ls_trades s)) as [t0|] eqn:Et.
+  - pose proof (INV_new_order s o t None (ctx_place t st sl (ls_ctx s)) (ls_bet_lookup s ++ [(None, n)]) (Z.max (ls_next_trade s) (t + 1)) H eq_refl eq_refl Hf Hlt I ltac:(lia) ltac:(lia)) as P.
+    cbn [app] in P. rewrite app_nil_r in P. exact P.
+  - exact (INV_new_order s o t (Some {| lt_id := t; lt_status := TLive; lt_log := []; lt_pending_orders := false; lt_strat := st; lt_sel := sl |})
+             (ctx_place t st sl (ls_ctx s)) (ls_bet_lookup s ++ [(None, n)]) (Z.max (ls_next_trade s) (t + 1)) H eq_refl eq_refl Hf Hlt (conj eq_refl Et) ltac:(lia) ltac:(lia)).
+Qed.
+
+Lemma INV_process_row s x : INV s -> sr_name x < ls_next_name s -> INV (process_row s x).
+Proof.
+  intros H Hlt. unfold process_row. destruct (oget (sr_name x) (ls_orders s)) as [o|] eqn:E.
+  - destruct (lo_bet o) as [b|]; [|apply INV_apply_row; exact H]. destruct (b =? rw_bet (sr_row x)); [apply INV_apply_row; exact H|].
+    destruct (find _ _); [apply INV_apply_row; exact H|exact H].
+  - destruct (sr_strategy x) as [st|]; [|exact H]. apply INV_apply_row. unfold adopt. cbv zeta.
+    assert (Hnone : tget' (ls_next_trade s) (ls_trades s) = None).
+    { destruct H as (_ & _ & _ & _ & Hft). unfold tget'. destruct (find (fun t => lt_id t =? ls_next_trade s) (ls_trades s)) as [t0|] eqn:Ef; [|reflexivity].
+      apply find_some in Ef. destruct Ef as [Hin Heq]. specialize (Hft t0 Hin). lia. }
+    exact (INV_new_order s {| lo_name := sr_name x; lo_trade := ls_next_trade s; lo_strat := st; lo_sel := sr_sel x; lo_size := sr_size x; lo_price := sr_price x;
+                              lo_status := SPending; lo_log := [SPending]; lo_complete := false; lo_bet := Some (rw_bet (sr_row x)); lo_async := false; lo_view := None; lo_place_resp := None;
+                              lo_in_live := true; lo_in_blotter := true; lo_newprice := None |} (ls_next_trade s)
+             (Some {| lt_id := ls_next_trade s; lt_status := TLive; lt_log := []; lt_pending_orders := false; lt_strat := st; lt_sel := sr_sel x |})
+             (ctx_place (ls_next_trade s) st (sr_sel x) (ls_ctx s)) (ls_bet_lookup s ++ [(Some (rw_bet (sr_row x)), sr_name x)]) (ls_next_trade s + 1)
+             H eq_refl eq_refl E Hlt (conj eq_refl Hnone) ltac:(lia) ltac:(lia)).
+Qed.
+Lemma next_name_apply_row s n r : ls_next_name (apply_row s n r) = ls_next_name s.
+Proof.
+  pose proof (same_tc_leave_live (row_status (set_fields s n (fun o => set_view o r)) n r) n) as (_ & _ & H1 & _). unfold apply_row. rewrite H1.
+  unfold row_status. destruct (oget n _) as [o|]; [|reflexivity].
+  assert (Hos : forall y m st, ls_next_name (order_status y m st) = ls_next_name y).
+  { intros y m st. unfold order_status. cbv zeta.
+    repeat match goal with
+           | |- context [match ?z with Some _ => _ | None => _ end] => destruct z
+           | |- context [if ?c then _ else _] => destruct c
+           end; unfold complete_trade; repeat match goal with |- context [match ?z with Some _ => _ | None => _ end] => destruct z end; reflexivity. }
+  destruct (lo_bet o); destruct (lo_status o); try reflexivity; destruct (rw_complete r); try reflexivity; rewrite Hos; reflexivity.
+Qed.
+Lemma next_name_process_row s x : ls_next_name (process_row s x) = ls_next_name s.
+Proof.
+  unfold process_row. destruct (oget (sr_name x) (ls_orders s)) as [o|].
+  - destruct (lo_bet o) as [b|]; [|apply next_name_apply_row]. destruct (b =? rw_bet (sr_row x)); [apply next_name_apply_row|]. destruct (find _ _); [apply next_name_apply_row|reflexivity].
+  - destruct (sr_strategy x); [|reflexivity]. rewrite next_name_apply_row. reflexivity.
+Qed.
+
+Lemma INV_exec_place s names reports : INV s -> INV (exec_place s names reports).
+Proof. intros H. unfold exec_place. cbv zeta. apply INV_add_tx. apply INV_fold; [|exact H]. intros s0 x H0. apply INV_with_trade; [intros y; apply INV_place_body|exact H0]. Qed.
+Lemma INV_exec_update s names reports : INV s -> INV (exec_update s names reports).
+Proof. intros H. unfold exec_update. cbv zeta. apply INV_add_tx. apply INV_fold; [|exact H]. intros s0 x H0. apply INV_with_trade; [intros y Hy; apply INV_order_status; [discriminate|exact Hy]|exact H0]. Qed.
+Lemma INV_reset_orders s names c : INV s -> INV (reset_orders s names c).
+Proof. intros H. unfold reset_orders. apply INV_fold; [|exact H]. intros s0 x H0. apply INV_with_trade; [intros y Hy; apply INV_order_status; [destruct c; discriminate|exact Hy]|exact H0]. Qed.
+Lemma INV_exec_cancel s names reports : INV s -> INV (exec_cancel s names reports).
+Proof.
+  intros H. unfold exec_cancel. cbv zeta. apply INV_add_tx.
+  apply INV_fold; [intros s0 x H0; apply INV_with_trade; [intros y Hy; apply INV_order_status; [discriminate|exact Hy]|exact H0]|].
+  assert (G : forall l acc, INV (fst (fst acc)) -> INV (fst (fst (fold_left (cancel_step s (pkg_orders s names)) l acc)))).
+  { induction l as [|x r IH]; intros acc Ha; cbn [fold_left]; [exact Ha|]. apply IH. destruct acc as [[s0 rest] nf]. unfold cancel_step. cbn [fst snd] in *.
+    destruct (by_bet s (pkg_orders s names) (fst x)); [|exact Ha]. destruct (negb (existsb (Z.eqb z) rest)); [exact Ha|]. cbn [fst].
+    apply INV_with_trade; [intros y; apply INV_cancel_body|exact Ha]. }
+  apply G. exact H.
+Qed.
+Lemma INV_exec_replace s names reports : INV s -> INV (exec_replace s names reports).
+Proof.
+  intros H. unfold exec_replace. cbv zeta. apply INV_add_tx.
+  assert (G : forall l acc, INV (fst acc) -> INV (fst (fold_left replace_step l acc))).
+  { induction l as [|x r IH]; intros acc Ha; cbn [fold_left]; [exact Ha|]. apply IH. unfold replace_step.
+    destruct (oget (fst x) (ls_orders (fst acc))); [|exact Ha]. cbn [fst]. apply INV_with_trade; [intros y; apply INV_replace_body|exact Ha]. }
+  apply G. exact H.
+Qed.
+Lemma INV_req_other s n k p : INV s -> INV (req_other s n k p).
+Proof.
+  intros H. unfold req_other. destruct (oget n (ls_orders s)) as [o|]; [|exact H]. destruct (lo_bet o); [|exact H].
+  destruct (status_eqb (lo_status o) SExecutable); [|exact H]. apply INV_order_status; [destruct (k =? 0); [discriminate|destruct (k =? 1); discriminate]|].
+  destruct (k =? 2); [eapply INV_same_tc; [apply same_tc_set_fields; reflexivity|exact H]|exact H].
+Qed.
+Lemma INV_snapshot rows : forall s, INV s -> (forall x, In x rows -> sr_name x < ls_next_name s) -> INV (process_snapshot s rows).
+Proof.
+  unfold process_snapshot. induction rows as [|x r IH]; intros s H Hlt; cbn [fold_left]; [exact H|].
+  apply IH; [apply INV_process_row; [exact H|apply Hlt; left; reflexivity]|].
+  intros y Hy. rewrite next_name_process_row. apply Hlt. right. exact Hy.
+Qed.
+(* a placement refused by the strategy / a control: the order (VIOLATION, complete) is listed in trade.orders but is never in the blotter *)
+Lemma INV_place_refused s n t st sl sz p : INV s -> oget n (ls_orders s) = None -> n < ls_next_name s -> INV (lstep s (LPlaceRefused n t st sl sz p)).
+Proof.
+  intros (Hncl & Hut & Huo & Hfn & Hft) Hf Hlt. cbn [lstep]. cbv zeta.
+  split; [|split; [exact Hut|split; [|split]]]; cbn [ls_orders ls_trades ls_next_name ls_next_trade].
+  - intros t0 Hin. specialize (Hncl t0 Hin). rewrite trade_complete_allc in *. cbn [ls_orders]. unfold allc in *. rewrite forallb_app. cbn [forallb lo_complete]. rewrite orb_true_r, andb_true_r. exact Hncl.
+  - rewrite map_app. cbn [map lo_name]. apply NoDup_app_snoc; [exact Huo|]. intro Hin. apply in_map_iff in Hin. destruct Hin as [x [E Hx]].
+    unfold oget in Hf. apply (find_none _ _ Hf) in Hx. lia.
+  - intros x Hx. apply in_app_or in Hx. destruct Hx as [Hx|[<-|[]]]; [apply Hfn; exact Hx|exact Hlt].
+  - intros t0 Hin. specialize (Hft t0 Hin). lia.
+Qed.
+
+(* well-formed event: new references are new (the harness / the exchange never re-uses a reference) *)
+Definition wfe (s : lstate) (e : levent) : Prop :=
+  match e with
+  | LPlace n _ _ _ _ _ _ => oget n (ls_orders s) = None /\ n < ls_next_name s
+  | LPlaceRefused n _ _ _ _ _ => oget n (ls_orders s) = None /\ n < ls_next_name s
+  | LSnapshot rows => forall x, In x rows -> sr_name x < ls_next_name s
+  | _ => True
+  end.
+
+Theorem lstep_INV s e : INV s -> wfe s e -> INV (lstep s e).
+Proof.
+  intros H Hw. destruct e; cbn [lstep]; cbn [wfe] in Hw.
+  - destruct Hw. apply INV_req_place; assumption.
+  - apply INV_req_other; exact H.
+  - apply INV_exec_place; exact H.
+  - apply INV_exec_cancel; exact H.
+  - apply INV_exec_update; exact H.
+  - apply INV_exec_replace; exact H.
+  - apply INV_reset_orders; exact H.
+  - exact H.
+  - apply INV_snapshot; assumption.
+  - exact H.
+  - destruct Hw. apply (INV_place_refused s name tid strat sel size price); assumption.
+  - exact H.
+  - destruct H as (_ & _ & _ & _ & _). split; [intros t []|]. split; [constructor|]. split; [constructor|]. split; intros x [].
+Qed.
+
+(* histories in which every new reference is new *)
+Fixpoint wf_history (s : lstate) (es : list levent) : Prop :=
+  match es with [] => True | e :: r => wfe s e /\ wf_history (lstep s e) r end.
+Theorem lrun_INV cs es : wf_history (lstate0 cs) es -> INV (lrun (lstate0 cs) es).
+Proof.
+  unfold lrun. assert (G : forall l s, INV s -> wf_history s l -> INV (fold_left lstep l s)).
+  { induction l as [|e r IH]; intros s Hs Hw; cbn [fold_left]; [exact Hs|]. destruct Hw as [Hw1 Hw2]. apply IH; [apply lstep_INV; assumption|exact Hw2]. }
+  apply G. split; [intros t []|]. split; [constructor|]. split; [constructor|]. split; intros x [].
+Qed.
+(* hence: at handler granularity, whenever every order of a trade that is Live and not flagged pending_orders is complete, the trade
+   HAS been completed - the completion is never missed *)
+Corollary live_trade_has_incomplete_order cs es t : wf_history (lstate0 cs) es -> let s := lrun (lstate0 cs) es in
+  In t (ls_trades s) -> lt_status t = TLive -> lt_pending_orders t = false -> exists o, In o (ls_orders s) /\ lo_trade o = lt_id t /\ lo_complete o = false.
+Proof.
+  intros Hw s Hin Hst Hp. destruct (lrun_INV cs es Hw) as (Hncl & _). specialize (Hncl t Hin). fold s in Hncl.
+  unfold trade_complete in Hncl. rewrite Hst, Hp in Hncl. cbn in Hncl.
+  destruct (forallb (fun o => negb (lo_trade o =? lt_id t) || lo_complete o) (ls_orders s)) eqn:E; [discriminate|].
+  assert (Hex : exists o, In o (ls_orders s) /\ (negb (lo_trade o =? lt_id t) || lo_complete o) = false).
+  { clear -E. induction (ls_orders s) as [|o r IH]; [discriminate|]. cbn [forallb] in E. apply andb_false_iff in E. destruct E as [E|E]; [exists o; split; [left; reflexivity|exact E]|].
+    destruct (IH E) as [x [Hx Ex]]. exists x. split; [right; exact Hx|exact Ex]. }
+  destruct Hex as [o [Hin' Ho]]. apply orb_false_iff in Ho. destruct Ho as [Ho1 Ho2]. apply negb_false_iff in Ho1. exists o. repeat split; [exact Hin'|lia|exact Ho2].
+Qed.
+
+Lemma wfe_b_sound s e : wfe_b s e = true -> wfe s e.
+Proof.
+  destruct e; cbn [wfe_b wfe]; intros H; try exact I.
+  - apply andb_true_iff in H. destruct H as [H1 H2]. destruct (oget name (ls_orders s)); [discriminate|]. split; [reflexivity|lia].
+  - rewrite forallb_forall in H. intros x Hx. specialize (H x Hx). lia.
+  - apply andb_true_iff in H. destruct H as [H1 H2]. destruct (oget name (ls_orders s)); [discriminate|]. split; [reflexivity|lia].
+Qed.
